@@ -17,6 +17,13 @@ pub struct Built {
 }
 
 pub fn build(rng: &mut Rng, nconn: usize, transitions: bool) -> Built {
+    build_with(rng, nconn, transitions, false, false)
+}
+
+/// `oneway_flood`: the flooders' calls are all oneway; `monitor`: one extra connection subscribes to a
+/// stream that produces an item from inside (almost) every `handle()` call and never ends, like a
+/// client watching every state change.
+pub fn build_with(rng: &mut Rng, nconn: usize, transitions: bool, oneway_flood: bool, monitor: bool) -> Built {
     let mut scn = Scenario::default();
     let mut chains = Vec::new();
     let nflood = rng.range(1, (nconn - 1).max(1));
@@ -32,7 +39,7 @@ pub fn build(rng: &mut Rng, nconn: usize, transitions: bool) -> Built {
                     kind = Kind::Sub;
                     sub_at = Some(j);
                 }
-                CallSpec { kind, seq: 1 + j as u32, oneway: kind != Kind::Sub && rng.chance(1, 8), more: kind == Kind::Sub, payload: "p".repeat(rng.below(6)) }
+                CallSpec { kind, seq: 1 + j as u32, oneway: kind != Kind::Sub && ((flooder && oneway_flood) || rng.chance(1, 8)), more: kind == Kind::Sub, payload: "p".repeat(rng.below(6)) }
             })
             .collect();
         let mut c = ConnScn { calls, ..Default::default() };
@@ -55,6 +62,16 @@ pub fn build(rng: &mut Rng, nconn: usize, transitions: bool) -> Built {
             s.push(Ev::Close { client, seq: k.seq });
             chains.push(s);
         }
+        scn.conns.push(c);
+    }
+    if monitor {
+        // the monitor connection: position in the accept order is random (its chain is interleaved like any other)
+        let i = scn.conns.len();
+        let client = i as u32;
+        let c = ConnScn { calls: vec![CallSpec { kind: Kind::Sub, seq: 1, oneway: false, more: true, payload: String::new() }], ..Default::default() };
+        chains.push(vec![Ev::Accept(i), Ev::Deliver(i)]);
+        let total_calls: usize = scn.conns.iter().map(|c| c.calls.len()).sum();
+        chains.push((0..total_calls + 2).map(|n| Ev::Item { client, seq: 1, n: n as u32, continues: Some(true) }).collect());
         scn.conns.push(c);
     }
     // padding events that only let time pass inside handle()
@@ -265,7 +282,7 @@ pub fn run(cfg: &Cfg) -> Report {
     let n_rand = cfg.n(300_000, 10_000_000);
     for k in 0..n_rand {
         let nconn = rng.range(2, 5);
-        let mut b = build(&mut rng, nconn, k % 3 == 0);
+        let mut b = build_with(&mut rng, nconn, k % 3 == 0, k % 5 == 1, k % 7 == 2);
         let order = random_interleaving(&b.chains, &mut rng);
         b.scn.steps = order.into_iter().map(|e| Step { ev: e, mode: *rng.pick(&[Mode::Batch, Mode::InHandle, Mode::InHandle, Mode::Quiesce]) }).collect();
         check(&b.scn, &mut rep, &mut orders);
